@@ -66,7 +66,7 @@ func checkLess(ctx *Ctx, r *Report, fn *ssa.Function, key string) {
 		r.undecided("Y1", key, fn.Pos(), "comparator is not comparison-only: "+shortKey(t.Key(), 200))
 		return
 	}
-	a, i, j := fn.Params[0].Name(), fn.Params[1].Name(), fn.Params[2].Name()
+	a, i, j := paramName(fn, 0), paramName(fn, 1), paramName(fn, 2)
 	var names []string
 	for _, side := range []string{i, j} {
 		for k := 0; k < 3; k++ {
@@ -114,7 +114,7 @@ func checkCanonical(ctx *Ctx, r *Report, fn *ssa.Function, key string) {
 	}
 	ev := newEval(ctx)
 	_, st := ev.evalRoot(fn)
-	recv := fn.Params[0].Name()
+	recv := paramName(fn, 0)
 	out := make([]*Term, 3)
 	for o, v := range st.mem {
 		for k := 0; k < 3; k++ {
@@ -244,7 +244,7 @@ func checkEquals(ctx *Ctx, r *Report) {
 		r.undecided("Y3", "TriangleISet.Equals", fn.Pos(), "result not scalar")
 		return
 	}
-	a, b := fn.Params[0].Name(), fn.Params[1].Name()
+	a, b := paramName(fn, 0), paramName(fn, 1)
 	cs := eventsOf(ev, "(github.com/deadsy/sdfx/render.TriangleISet).Canonical")
 	canonBoth := false
 	if len(cs) == 2 {
@@ -354,7 +354,7 @@ func checkCircumcenter(ctx *Ctx, r *Report, fn *ssa.Function, key string) {
 		r.undecided("Y4", key, fn.Pos(), "no centre coordinates")
 		return
 	}
-	recv := fn.Params[0].Name()
+	recv := paramName(fn, 0)
 	X := func(i int) *Term { return A(fmt.Sprintf("%s[%d].X", recv, i)) }
 	Y := func(i int) *Term { return A(fmt.Sprintf("%s[%d].Y", recv, i)) }
 	// the epsilon tests
@@ -461,7 +461,7 @@ func checkInCircumcircle(ctx *Ctx, r *Report) {
 		r.undecided("Y5", "sdf.Triangle2.InCircumcircle", fn.Pos(), "success return not found")
 		return
 	}
-	recv, p := fn.Params[0].Name(), fn.Params[1].Name()
+	recv, p := paramName(fn, 0), paramName(fn, 1)
 	var cX, cY *Term
 	for _, s := range findSub(inside, func(x *Term) bool { return x.Op == "a" && strings.Contains(x.S, "Circumcenter") }) {
 		if strings.HasSuffix(s.S, ".X") {
